@@ -1,6 +1,7 @@
 package main
 
 import (
+	"go/ast"
 	"fmt"
 	"go/constant"
 	"go/token"
@@ -50,6 +51,7 @@ type Frame struct {
 	loopIdx    *ssa.Phi
 	loopPhis   []*ssa.Phi
 	loopNames  map[string]*ssa.Phi
+	loopVals   map[string]ssa.Value // source names used inside the loop that denote one value defined outside it
 	loopRange  *ssa.Range
 	curBlock   *ssa.BasicBlock
 	loopHead   map[int]*loopCtx
@@ -754,6 +756,7 @@ func (g *Gen) loopHeader(f *Frame, ci *cfgInfo, b *ssa.BasicBlock, preds []*ssa.
 		}
 	}
 	f.loopNames = names
+	f.loopVals = g.loopDebugVals(f.fn, ci.loopOf[b.Index])
 	f.loopRange = nil
 	for _, ins := range b.Instrs {
 		if nx, ok := ins.(*ssa.Next); ok {
@@ -762,7 +765,19 @@ func (g *Gen) loopHeader(f *Frame, ci *cfgInfo, b *ssa.BasicBlock, preds []*ssa.
 			}
 		}
 	}
-	defer func() { f.loopNames = nil; f.loopRange = nil }()
+	if rng := f.loopRange; rng != nil {
+		// the operand of `for ... range X` is evaluated before the loop: inside the loop clauses its source name denotes that value
+		for _, ins := range rng.Block().Instrs {
+			if dr, ok := ins.(*ssa.DebugRef); ok && !dr.IsAddr && dr.X == rng.X {
+				if id, ok := dr.Expr.(*ast.Ident); ok {
+					if _, isLoopVar := names[id.Name]; !isLoopVar {
+						f.loopVals[id.Name] = rng.X
+					}
+				}
+			}
+		}
+	}
+	defer func() { f.loopNames = nil; f.loopRange = nil; f.loopVals = nil }()
 	defer func() { f.loopIdx = nil; f.loopPhis = nil }()
 	// automatic invariant of "for i := range slice" loops (SSA rangeindex pattern): -1 <= idx < n
 	type autoInv struct {
@@ -899,7 +914,7 @@ func (g *Gen) loopHeader(f *Frame, ci *cfgInfo, b *ssa.BasicBlock, preds []*ssa.
 	if f.loopHead == nil {
 		f.loopHead = map[int]*loopCtx{}
 	}
-	lc := &loopCtx{phis: phis, spec: spec, k: k, autos: lcAutos, names: names, rng: f.loopRange}
+	lc := &loopCtx{phis: phis, spec: spec, k: k, autos: lcAutos, names: names, rng: f.loopRange, vals: f.loopVals}
 	if spec != nil && spec.Decreases != nil {
 		v := g.clauseTerm(f, spec.Decreases, f.st, nil)
 		lc.varAtHead = g.defFresh("variant", "Int", v.S)
@@ -1064,6 +1079,7 @@ func (g *Gen) preservePrivate(f *Frame, old, nw *State, skip map[*ssa.Alloc]bool
 type loopCtx struct {
 	rng       *ssa.Range
 	names     map[string]*ssa.Phi
+	vals      map[string]ssa.Value
 	autos     map[*ssa.Phi]string
 	phis      []*ssa.Phi
 	spec      *LoopSpec
@@ -1089,13 +1105,14 @@ func (g *Gen) backEdge(f *Frame, from, hdr *ssa.BasicBlock, en string) {
 	}
 	f.loopPhis = lc.phis
 	f.loopNames = lc.names
+	f.loopVals = lc.vals
 	f.loopRange = lc.rng
 	for _, phi := range lc.phis {
 		if phi.Comment == "rangeindex" {
 			f.loopIdx = phi
 		}
 	}
-	defer func() { f.loopIdx = nil; f.loopPhis = nil; f.loopNames = nil; f.loopRange = nil }()
+	defer func() { f.loopIdx = nil; f.loopPhis = nil; f.loopNames = nil; f.loopRange = nil; f.loopVals = nil }()
 	// evaluate invariant with phis := back-edge values in current state
 	saved := map[*ssa.Phi]Term{}
 	for _, phi := range lc.phis {
@@ -1124,4 +1141,48 @@ func (g *Gen) backEdge(f *Frame, from, hdr *ssa.BasicBlock, en string) {
 	for _, phi := range lc.phis {
 		f.vals[phi] = saved[phi]
 	}
+}
+
+// loopDebugVals: source-level local variables that are used inside the loop, denote the same SSA value at every
+// use there, and whose value is defined outside the loop (so it is the same in every iteration). Inside the
+// clauses of that loop the source name denotes this value (e.g. a parameter that was reassigned before the loop).
+func (g *Gen) loopDebugVals(fn *ssa.Function, blocks []*ssa.BasicBlock) map[string]ssa.Value {
+	in := map[*ssa.BasicBlock]bool{}
+	for _, b := range blocks {
+		in[b] = true
+	}
+	out := map[string]ssa.Value{}
+	bad := map[string]bool{}
+	for _, b := range blocks {
+		for _, ins := range b.Instrs {
+			dr, ok := ins.(*ssa.DebugRef)
+			if !ok || dr.IsAddr {
+				continue
+			}
+			id, ok := dr.Expr.(*ast.Ident)
+			if !ok || dr.Object() == nil {
+				continue
+			}
+			if vo, isVar := dr.Object().(*types.Var); !isVar || vo.IsField() || vo.Pkg() == nil || vo.Parent() == vo.Pkg().Scope() {
+				continue
+			}
+			if _, isConst := dr.X.(*ssa.Const); isConst {
+				bad[id.Name] = true
+				continue
+			}
+			if vi, isInstr := dr.X.(ssa.Instruction); isInstr && in[vi.Block()] {
+				bad[id.Name] = true // defined inside the loop: differs between iterations
+				continue
+			}
+			if prev, ok := out[id.Name]; ok && prev != dr.X {
+				bad[id.Name] = true
+				continue
+			}
+			out[id.Name] = dr.X
+		}
+	}
+	for n := range bad {
+		delete(out, n)
+	}
+	return out
 }
